@@ -108,7 +108,7 @@ def small_alphabet(faults):
 def sanitize(ops, par, allow):
     """keep histories inside the modelled envelope:
        * a crash (process death) only in sequential mode, and it is followed by a reopen;
-       * in parallel mode no raising fault (thread timing would decide what completed);
+       * in parallel mode (chunks of five misses, all awaited) raising faults are allowed, a process death is not;
        * within one request a resource has one outcome and a (resource, comment) appears once."""
     out = []
     for op in ops:
@@ -124,11 +124,8 @@ def sanitize(ops, par, allow):
                     continue
                 seen.add((q["r"], q["k"]))
                 q["out"] = outcome.setdefault(q["r"], q["out"])
-                if par:
-                    if q["out"][0] in ("B", "H", "C") or (q["out"][0] == "N" and not allow):
-                        q["out"] = ["K", 0]
-                    if q["post"] == "F":
-                        q["post"] = "T"
+                if par and q["out"][0] == "C":
+                    q["out"] = ["H", q["out"][1]]      # a process death is explored in sequential mode only
                 reqs.append(q)
             op["reqs"] = reqs
             out.append(op)
@@ -162,10 +159,13 @@ def random_history(rng, faults, maxlen, nres=4, ncom=3):
         x = rng.random()
         if x < 0.55:
             m = rng.choice([1, 1, 2, 2, 3])
+            big = rng.random() < 0.12
+            if big:
+                m = rng.randint(6, 12)          # more than one chunk of five in parallel mode
             reqs = []
             for _ in range(m):
-                r = rng.randrange(nres)
-                k = rng.choice([0, 0, 0, 1, 2][:2 + ncom])
+                r = rng.randrange(6 if big else nres)
+                k = rng.choice([0, 0, 0, 1, 2][:2 + ncom]) if not big else rng.randrange(3)
                 ver += 1
                 out = ["K", ver % 7]
                 val, post = "N", "N"
